@@ -715,4 +715,17 @@ def c08_sqrt_algos(tier, seed):
 
 E('C08', c08_sqrt_algos)
 
+
+# ----------------------------------------------------------------------------- translation-validation guard
+def _mk_smoke(pid):
+    def smoke(tier, seed):
+        from vfx import smoke as _smoke
+        return _smoke.smoke_property(pid, tier, seed)
+    smoke.__name__ = 'smoke_' + pid
+    return smoke
+
+
+for _pid in list(PROPS):
+    E(_pid, _mk_smoke(_pid))
+
 NOT_APPLICABLE = {}
